@@ -40,11 +40,11 @@ PROPS = {
                   "TasksAborted for all dependents before the TaskFailed that caused them and one TasksCanceled per cancel; validated on "
                   "every run on journals the real server persists in simulated cluster runs, restored at every record boundary"]),
     "C05": entry("C05", ["c05_reserve_exact", "c05_release_restores", "c05_inv_partial", "c05_resinv_reachable", "c05_free_le_total",
-                         "c05_f29_witness", "c05_reject_witness"],
+                         "c05_f29_witness", "c05_reject_witness", "c05_worker_task_wf"],
                  [core(["msg", "w", "rd", "t", "q"], ["c05.", "core.hyp"])],
                  ["c05_inv_partial / c05_resinv_reachable: the resource equation free + sum(reserved) = total is an inductive invariant of EVERY "
                   "operation of the core model under decidable side conditions (StepHyp: fresh worker record, request names a resource once, "
-                  "Reject comes from the assigned worker, QueueOkD / RdIn / SolMnOk before a scheduling round; NoSaturation: a Running / "
+                  "Reject comes from the assigned worker, QueueOkD / SolMnOk before a scheduling round (RdIn is a proved consequence of the invariant); NoSaturation: a Running / "
                   "RunningPrefilled of a Prefilled or Retracting task fits the free vector); the compiled model evaluates every side condition "
                   "on the pre-state of every operation of every real trace (model-side monitor c05.hyp): all hold on the unchanged tree except "
                   "NoSaturation, whose failure is finding F29 (c05_f29_witness shows it cannot be dropped)"]),
